@@ -7,6 +7,8 @@ from .tlc import MachineryError
 def run_scenarios(ck, jobs, files, rng, what):
     """jobs: list of scenario dicts {N, m, list, conn, comps, kind, meas, full, dm}. Returns list of (job, phase_b, tomo_verdict, fitter_verdicts)."""
     core.dbg(what, "scenarios", len(jobs))
+    for k, job in enumerate(jobs):      # how the caller holds its arguments: a list, a tuple, or numpy arrays / objects that it goes on editing after the circuits are built
+        job.setdefault("argform", ("list", "tuple", "edited")[k % 3])
     pa = par.pmap(workers.tomo_phase_a, jobs)
     mrecs, owner = [], []
     for ji, (job, a) in enumerate(zip(jobs, pa)):
